@@ -12,8 +12,11 @@ PROPS = {
                       "inputs; Program.match is proved to account for every item on its normal exit (fallback exit: known finding); "
                       "per-rule match methods are not under contract",
                 trusted=TRUSTED,
-                explanation="[P] tokenisers, label/name extraction, Program.match item accounting; [B] cross-checks on CPython; see DESIGN 6/C02",
-                witnesses=["c02_units_dropped_around_anonymous_main"]),
+                explanation="[P] tokenisers, label/name extraction, Program.match item accounting, SequenceBase.match; [B] lexical content of printed "
+                            "text vs source (bounded_tokens.py), layout independence of the reader items (bounded_layout.py)",
+                enum=["bounded_tokens.py", "bounded_layout.py --only C04"],
+                witnesses=["c02_units_dropped_around_anonymous_main", "c02_char_selector_placeholder_leak", "c02_char_selector_kind_len_reordered",
+                           "c02_semicolon_join_lowercases_names"]),
     "C06": dict(level="other",
                 claim="exception-type contracts: Program.__new__ lets only FortranSyntaxError out (given the stated contract of the parse "
                       "below it), FortranSyntaxError construction cannot raise IndexError under the line bookkeeping invariant, reader "
